@@ -375,7 +375,7 @@ def c09_cross_process(tier, seed):
         if ref is None:
             ref = r.hashes
         else:
-            bad = sorted(i for i in ref if r.hashes.get(i) != ref[i])
+            bad = sorted(i for i in ref if i in r.hashes and r.hashes[i] != ref[i])
             if bad:
                 v = {"how": "hash", "family": bad[0], "flavour": flavour}
                 path = D.flavour_replay_file("C09", seed, bad[0], flavour)
